@@ -536,11 +536,18 @@ pub fn run(r: &Run) {
     r.prop("near-ties", r.tier.pick(200_000, 4_000_000), || arb_case_ties(r.tier.pick(12, 24)), check);
     r.assume(TM_RULE);
     r.prop("tm-eligibility", r.tier.pick(60_000, 1_500_000), arb_tm_case, check_tm);
+    // what a registered session is sent must be the RIB's ranking (shared with C06): a fan-out that skips a
+    // session leaves it advertising something other than the leading paths of the ranking
+    r.assume(crate::props::c06::TM_RULE);
+    r.prop("tm-ranking-stream", r.tier.pick(30_000, 600_000), crate::props::c06::arb_tm_case, crate::props::c06::check_tm);
 }
 
 pub fn replay(sub: &str, case: &Value) -> Result<CheckResult, String> {
     if sub == "tm-eligibility" {
         return Ok(check_tm(&decode_case(case)?));
+    }
+    if sub == "tm-ranking-stream" {
+        return Ok(crate::props::c06::check_tm(&decode_case(case)?));
     }
     let c: Case = decode_case(case)?;
     Ok(check(&c))
